@@ -1,19 +1,34 @@
-(* C02: no premature acceptance.  ONLY statements closed by `exact`, each followed by Print Assumptions. *)
+(* C02: no premature acceptance.  ONLY statements closed by `exact`, each followed by Print Assumptions.
+   Spec.v is a COUNTER-FREE specification automaton (no hold counters anywhere): per client it keeps which data arrived, which
+   services still owe an answer (a set), whether +! was asked and an account is held, whether the timeout expired; it accepts
+   exactly when `sready`:  all data the loaded modules asked for (or hurry-up)  /\  not (+! without account)  /\
+   (no service owes an answer \/ timeout expired).  Iauth.v is the model that mirrors the C code with its counters. *)
 From Coq Require Import List NArith ZArith Bool Strings.Byte Strings.String.
 Import ListNotations.
-Require Import Params Iauth IauthInv.
+Require Import Params Iauth IauthInv Spec.
 Local Open Scope list_scope.
 
-(* every request of every reachable table satisfies the hold-accounting invariant:
-   holds = 1 exactly when +! was requested and no account is stored, else 0;
-   unless the timeout expired, soft_holds = 1 exactly when some query is unanswered (ref mask non-empty), else 0 *)
+(* the model (hence, through the correspondence run, the daemon) produces exactly the lines of the specification automaton,
+   for every configuration and every history *)
+Theorem model_refines_counter_free_spec : forall c services rs t evs,
+  run_out c (init c services rs t) evs = srun_out c (sinit c services rs t) evs.
+Proof. exact spec_refines. Qed.
+Print Assumptions model_refines_counter_free_spec.
+
+(* in every reachable state and for every input line: a D/R line for client i is emitted in this step if and only if the step brings
+   request i to the gate in a state that is `sready` - never earlier (C02), never later (C03) *)
+Theorem accept_exactly_when_ready : forall c s id argv i, reach c s ->
+  (existsb (accept_for i) (snd (step c s id argv)) = true <->
+   exists r1 pre efs, sevent c (abs_st s) id argv = ToGate i r1 pre efs /\ sready c r1 = true).
+Proof. exact accept_iff_ready_step. Qed.
+Print Assumptions accept_exactly_when_ready.
+
+(* the hold counters of the C code mean what they should in every reachable state *)
 Theorem hold_accounting_invariant : forall c services rs t evs,
   TInv (fold_left (fun s e => fst (step_ev c s e)) evs (init c services rs t)).
 Proof. exact run_inv_init. Qed.
 Print Assumptions hold_accounting_invariant.
 
-(* under that invariant the gate accepts (D/R) only when the client is `ready`: all data the loaded modules asked for is there
-   (or hurry-up set it), no unmet +! requirement, and no query unanswered unless the request timeout expired *)
 Theorem accept_only_when_ready : forall c tb r, Inv r -> fst (gate c tb r) = None -> ready c r = true.
 Proof. exact gate_sound. Qed.
 Print Assumptions accept_only_when_ready.
